@@ -385,6 +385,32 @@ theorem group_follows_graph {s : Store} {a g first : Addr} {B B' : BipG} (ha : s
   simp only []
   rw [get_write_eq hgs]
 
+/-- while the graph is as it was when the group was made, the live group answers exactly what the by-value group of the
+heap model answers: `liveNames1` is `all_variable_labels` -/
+theorem liveNames1_unchanged (numvar st : Nat) (B : BipG) (fmt : String) (un : Bool) (cl : List Clause) :
+    liveNames1 numvar st B B fmt un = Vars.allLabels ⟨numvar, [.bip st B fmt un], cl⟩ := by
+  unfold liveNames1 Vars.allLabels
+  by_cases h0 : B.numberOfEdges = 0
+  · simp [h0, Vars.allLabelsLoop, Vars.Group.len]
+  · simp only [h0, if_false, Vars.allLabelsLoop, Vars.Group.len, Vars.groupNames, Vars.Group.start]
+    cases Vars.defaultNames "x{}" 1 st with
+    | error e => rfl
+    | ok gap =>
+      cases (Vars.Group.bip st B fmt un).allLabels with
+      | error e => rfl
+      | ok ls => simp [bind, Except.bind, pure, Except.pure]
+
+/-- T-C19.A10' as long as the caller has not edited the graph, the names of the formula read through the live group are
+the names of its snapshot (so every theorem about `snap` / `Snap.names` speaks about the real answer); the reference
+matters only after an edit by the caller -/
+theorem liveNames_unchanged {s : Store} {f g first st : Addr} {S : Snap} {B : BipG} {fmt : String} {un : Bool}
+    (hS : snap s f = some S) (hgr : S.groups = [.bip st B fmt un]) (hp : s[f + 1]? = some (.bgroup g first))
+    (hg : s[g]? = some (.bipg B)) : liveNames s f = some S.names := by
+  unfold liveNames
+  rw [hS]
+  simp only [hp, hgr, hg]
+  rw [liveNames1_unchanged _ _ _ _ _ S.clauses, Snap.names, hgr]
+
 /-- the replay of notes/C19.md on the model: `B = BipartiteGraph(2,2)` with the edges (1,1), (2,2);
 `F = GraphPigeonholePrinciple(B)`; `p` = the group object; then the caller's `B.add_edge(1,2)` -/
 def o1Prog : List Instr :=
@@ -396,8 +422,10 @@ def o1Prog : List Instr :=
 /-- T-C19.A11 (O1, the documented behaviour, NOT a violation of C19: the ARGUMENT is left unchanged by the call; the
 RESULT is not independent of what the caller does to the graph afterwards).  On the replay: the call leaves the graph cell
 as it was; the group object holds the address of the caller's graph (same alias class); before the edit it enumerates the
-two edges, after the edit three — while the formula still has two variables. -/
-def o1Obs : Option (Bool × Bool × Option (List (Nat × Nat)) × Option (List (Nat × Nat)) × Option Nat × Option Nat) :=
+two edges, after the edit three — while the formula still has two variables; `all_variable_labels` has two labels before
+and THREE after (for two variables). -/
+def o1Obs : Option (Bool × Bool × Option (List (Nat × Nat)) × Option (List (Nat × Nat)) × Option Nat × Option Nat ×
+    Option Nat × Option Nat) :=
     (do let m1 ← runProg ⟨[]⟩ Machine.init (o1Prog.take 1)
         let m3 ← runProg ⟨[]⟩ Machine.init (o1Prog.take 3)
         let m4 ← runProg ⟨[]⟩ Machine.init o1Prog
@@ -405,10 +433,12 @@ def o1Obs : Option (Bool × Bool × Option (List (Nat × Nat)) × Option (List (
         pure (m3.store[g]? == m1.store[g]?,
               slots m3.store p == [p, g],
               bgroupEdges m3.store p, bgroupEdges m4.store p,
-              (snap m3.store f).map (·.cnf.nvars), (snap m4.store f).map (·.cnf.nvars)))
+              (snap m3.store f).map (·.cnf.nvars), (snap m4.store f).map (·.cnf.nvars),
+              (liveNames m3.store f).bind (fun r => r.toOption.map List.length),
+              (liveNames m4.store f).bind (fun r => r.toOption.map List.length)))
 
 theorem o1_replay : o1Obs
-      = some (true, true, some [(1, 1), (2, 2)], some [(1, 1), (1, 2), (2, 2)], some 2, some 2) := by
+      = some (true, true, some [(1, 1), (2, 2)], some [(1, 1), (1, 2), (2, 2)], some 2, some 2, some 2, some 3) := by
   rfl
 
 /-! ### non-vacuity -/
@@ -436,5 +466,13 @@ example : (snap (famCall ⟨[]⟩ storeA [5] [] none (plantedProg 2 2 2 [[1, 2],
 
 example : (0 : Nat) ∉ footprint (famCall ⟨[]⟩ storeA [0] [(0, .simple)] none (tseitinProg false)).1 9 := by
   decide +kernel
+
+/-- hypotheses of `formula_never_writes_graph`: a well-typed formula made from the graph at address 0, which is outside its footprint -/
+example : WT (famCall ⟨[]⟩ storeA [0] [(0, .simple)] none (tseitinProg false)).1 9 :=
+  wt_iff_snap.mpr (Option.isSome_iff_exists.mp (by decide +kernel))
+
+/-- hypotheses of `group_follows_graph` / `liveNames_unchanged`: a group object referring to a graph object -/
+example : ∃ (s : Store) (a g first : Nat) (B : BipG), s[a]? = some (.bgroup g first) ∧ s[g]? = some (.bipg B) :=
+  ⟨#[.bipg (BipG.init 1 1), .bgroup 0 0], 1, 0, 0, _, rfl, rfl⟩
 
 end Cnfgen.C19
